@@ -27,7 +27,7 @@ func init() {
 			"known fixed-length meta events are generated with their spec length (tempo 3 bytes non-zero, etc.)",
 			"header length is 6 (statement)",
 		},
-		Require: []string{"many_unknown_chunk_files", "huge_unknown_chunk_files", "reads_with_eof_delivered_with_data", "files", "feat:running_status", "feat:padded_vlq", "feat:f0_without_f7", "feat:f7_packet", "feat:unknown_meta", "feat:long_payload", "feat:alien_before", "feat:alien_between", "feat:alien_after", "feat:smpte", "decoder_crosschecks", "events_compared", "messages_classified", "pipe_reads", "reads_with_log_option", "appends_to_read_messages", "files_with_more_than_65536_events", "files_with_tracks_of_hundreds_of_events", "rereads_after_in_place_edit_of_the_first_result"},
+		Require: []string{"many_unknown_chunk_files", "huge_unknown_chunk_files", "reads_with_eof_delivered_with_data", "files", "feat:running_status", "feat:padded_vlq", "feat:f0_without_f7", "feat:f7_packet", "feat:unknown_meta", "feat:long_payload", "feat:alien_before", "feat:alien_between", "feat:alien_after", "feat:smpte", "decoder_crosschecks", "events_compared", "messages_classified", "pipe_reads", "reads_with_log_option", "appends_to_read_messages", "files_with_more_than_65536_events", "files_with_tracks_of_hundreds_of_events", "reads_right_after_a_refused_read_of_a_cut_file_with_long_payloads", "rereads_after_in_place_edit_of_the_first_result"},
 		UsesCur: true,
 		Run:     runC02,
 	})
@@ -347,6 +347,19 @@ func runC02(c *mon.Ctx) {
 			c.Count("files_with_tracks_of_hundreds_of_events", 1)
 		}
 		f := gen.SMFFile(r, gen.FileOpts{MaxTracks: 8, MaxEvents: me, AllowBig: i%16 == 0, Aliens: true, PaddedVLQ: true, Running: true})
+		if i%16 == 0 {
+			// the program has just been refused a file that ended early (an interrupted transfer of the same file, cut at
+			// seven places, most of them inside the long payload): that is over and must not show in the next read
+			b := f.Bytes(nil)
+			for k := 1; k < 8 && len(b) > 5000; k++ {
+				cut := len(b) * k / 8
+				c.Guard("panic:ReadFrom", map[string]any{"case": "prefix read before the file", "cut": cut}, func() {
+					if _, err := smf.ReadFrom(bytes.NewReader(b[:cut])); err != nil {
+						c.Count("reads_right_after_a_refused_read_of_a_cut_file_with_long_payloads", 1)
+					}
+				})
+			}
+		}
 		c02Check(c, f, fmt.Sprintf("random %d", i))
 		if i < 1 {
 			c.Sample("random-file", mon.Hex(head(f.Bytes(nil), 120)))
